@@ -313,6 +313,8 @@ class Species(Substance):
             if ``default_phase_idx`` is ``None`` and no suffix found in phases
 
         """
+        if not isinstance(phases, dict):
+            phases = tuple(phases)  # may be a one-shot iterator (it is traversed twice below)
         if "phase_idx" in kwargs:
             p_i = kwargs.pop("phase_idx")
         else:
